@@ -16,6 +16,10 @@ def implItem (attrs : Toks) (implG trait_ selfTy wheres body : Toks) : Toks :=
 /-- `<ty as trait>::f` -/
 def ufcs (ty trait_ : Toks) (f : Tok) : Toks := angle (ty ++ "as" :: trait_) ++ ["::", f]
 
+/-- `match self { arms, }`; with no arms the scrutinee must be a value: `match *self {}` -/
+def matchSelf (arms : List Toks) : Toks :=
+  if arms.isEmpty then ["match", "*", "self", "{", "}"] else "match" :: "self" :: brace (termBy "," arms)
+
 /-! ## Operators from a struct -/
 
 structure OpsImpl where
@@ -163,7 +167,7 @@ def CloneImpl.render (c : CloneImpl) : Toks :=
         paren (["Self", "::", v.variant.name] ++ patL ++ [",", "Self", "::", v.variant.name] ++ patR) ++
           "=>" :: brace (termBy ";" cfs)
       ["fn", "clone"] ++ paren ["&", "self"] ++ ["->", "Self"] ++
-        brace (if vs.isEmpty then ["match", "*", "self", "{", "}"] else "match" :: "self" :: brace (termBy "," armsClone)) ++
+        brace (matchSelf armsClone) ++
       ["fn", "clone_from"] ++ paren ["&", "mut", "self", ",", "__source", ":", "&", "Self"] ++
         brace ("match" :: paren ["self", ",", "__source"] ++ brace (termBy "," armsFrom ++
           paren ["__lhs", ",", "__rhs"] ++ ["=>", "*", "__lhs", "="] ++ ufcs ["Self"] (absPath ["core", "clone", "Clone"]) "clone" ++
@@ -279,9 +283,8 @@ def DebugImpl.render (d : DebugImpl) : Toks :=
     | .struct_ x => x.render fun f =>
         if d.unsizedLast == some f.index then ["&", "&", "self", ".", f.member] else ["&", "self", ".", f.member]
     | .enum_ arms =>
-      if arms.isEmpty then ["match", "*", "self", "{", "}"] else
-      "match" :: "self" :: brace (termBy "," (arms.map fun (v, x) =>
-        v.makePat "__field" ++ "=>" :: x.render fun f => [f.makeIdent "__field"]))
+      matchSelf (arms.map fun (v, x) =>
+        v.makePat "__field" ++ "=>" :: x.render fun f => [f.makeIdent "__field"])
   implItem autoDerived d.generics.implToks tr (thisTyToks d.name d.generics)
     (d.wc.build fun ty => ty.toks ++ ":" :: tr)
     (["fn", "fmt"] ++ paren (["&", "self", ",", "__f", ":", "&", "mut"] ++ absPath ["core", "fmt", "Formatter"]) ++
